@@ -95,6 +95,9 @@ pub fn check_string(s: &String, stats: &mut Stats) -> CheckResult {
     if boundary && exp.is_none() {
         stats.label("rejected-body");
     }
+    if boundary && s[3..].chars().any(|c| c.is_ascii_digit()) && s[3..].chars().any(|c| c.is_control() || c.is_whitespace()) {
+        stats.label("digits-with-control-or-space");
+    }
     // non-trivial: not the canonical rendering of an id
     if exp.map(|v| format!("HP:{v:07}")) != Some(s.clone()) {
         stats.nontrivial(hash_str(s));
@@ -111,6 +114,7 @@ fn check_id(v: u32) -> CheckResult {
     let want = format!("HP:{v:07}");
     crate::ensure!(text == want, "to_string", "HpoTermId({v}).to_string() = {text:?}, expected {want:?}");
     crate::ensure!(id.as_u32() == v, "as_u32", "from_u32({v}).as_u32() = {}", id.as_u32());
+    crate::ensure!(id.to_usize() == v as usize, "to_usize", "from_u32({v}).to_usize() = {}", id.to_usize());
     match HpoTermId::try_from(text.as_str()) {
         Ok(back) if back == id && back.as_u32() == v => {}
         other => return fail("roundtrip/text", format!("try_from({text:?}) = {other:?}, expected id {v}")),
@@ -134,6 +138,11 @@ fn check_id(v: u32) -> CheckResult {
     }
     Ok(())
 }
+
+const TRICKY: &[char] = &[
+    '\n', '\r', '\t', '\0', ' ', '\u{b}', '\u{c}', '\u{7f}', '\u{85}', '\u{a0}', '\u{2003}', '\u{2028}', '\u{200b}', '\u{feff}', '_', '.', ',', '+', '-', 'e', 'E', 'x',
+    '\'', '"', ':', '/', '#',
+];
 
 fn string_strategy() -> BoxedStrategy<String> {
     let prefix = prop_oneof![
@@ -170,9 +179,15 @@ fn string_strategy() -> BoxedStrategy<String> {
         1 => "[0-9]{0,3}[０-９]",
         1 => "\\PC{0,6}",
         1 => "[0-9]{11,14}",
+        // one character that number parsers of other languages skip or accept (control characters,
+        // ASCII and Unicode white space, separators, exponent / radix letters) at any position of a number
+        4 => ("[0-9]{0,7}", proptest::sample::select(TRICKY.to_vec()), "[0-9]{0,7}").prop_map(|(a, c, b)| format!("{a}{c}{b}")),
+        1 => ("[0-9]{1,7}", proptest::sample::select(vec!["\r\n", "\n\n", "\n\r", " \n", "\t\n", "\0\0"])).prop_map(|(a, c)| format!("{a}{c}")),
     ];
+    let any_chars = proptest::collection::vec(any::<char>(), 0..14).prop_map(|v| v.into_iter().collect::<String>());
     prop_oneof![
         8 => (prefix, body).prop_map(|(p, b)| format!("{p}{b}")),
+        1 => any_chars,
         1 => "\\PC{0,14}",
         1 => "[ -~]{0,14}",
     ]
@@ -184,7 +199,7 @@ impl Property for C20 {
         "C20"
     }
     fn rule(&self) -> String {
-        "Enumerated (exhaustive sub-sweep, both tiers): every id 0..10^7 plus 10^7..10^7+10^4, powers of two and the u32 borders: to_string == 'HP:'+7-digit zero padding, try_from(to_string) == id, from(to_be_bytes) == id, from_u32/as_u32/From<u32>/From<u64>/From<usize>/From<u16> agree, From<String>, == &str and Debug on every 64th id. Generated: strings = prefix pool (HP:, hp:, short, multi-byte prefixes whose 3rd byte lies inside a character) x body pool (digits, leading zeros, +/-, spaces, overflow 4294967295/6, non-ASCII digits, random unicode) plus arbitrary printable strings; oracle = hand-written reference parser (>=4 bytes, byte 3 on a char boundary, rest matches +?[0-9]+ and <= u32::MAX); never panics; Gene/Omim/OrphaId::try_from checked with the same grammar on the whole string. evaluations = ids enumerated + strings checked. Non-trivial = string is not the canonical rendering of an id; distinct by string.".into()
+        "Enumerated (exhaustive sub-sweep, both tiers): every id 0..10^7 plus 10^7..10^7+10^4, powers of two and the u32 borders: to_string == 'HP:'+7-digit zero padding, try_from(to_string) == id, from(to_be_bytes) == id, from_u32/as_u32/to_usize/From<u32>/From<u64>/From<usize>/From<u16> agree, From<String>, == &str and Debug on every 64th id. Generated: strings = prefix pool (HP:, hp:, short, multi-byte prefixes whose 3rd byte lies inside a character) x body pool (digits, leading zeros, +/-, spaces, overflow 4294967295/6, non-ASCII digits, random unicode, one control / white-space / separator / exponent character at any position of a number, trailing CR/LF) plus arbitrary strings of any chars; oracle = hand-written reference parser (>=4 bytes, byte 3 on a char boundary, rest matches +?[0-9]+ and <= u32::MAX); never panics; Gene/Omim/OrphaId::try_from checked with the same grammar on the whole string. evaluations = ids enumerated + strings checked. Non-trivial = string is not the canonical rendering of an id; distinct by string.".into()
     }
     fn assumptions(&self) -> Vec<String> {
         vec!["'parsable to u32' is Rust's grammar: optional '+', ASCII digits, value <= u32::MAX".into()]
@@ -196,7 +211,7 @@ impl Property for C20 {
         }
     }
     fn required_labels(&self, _tier: Tier) -> Vec<&'static str> {
-        vec!["byte3-inside-char", "non-ascii", "parses", "short", "rejected-body"]
+        vec!["byte3-inside-char", "non-ascii", "parses", "short", "rejected-body", "digits-with-control-or-space"]
     }
     fn run_generated(&self, _tier: Tier, seed: u64, n: u64, stats: &mut Stats) -> Option<(Value, Failure)> {
         run_typed(string_strategy(), seed, n, stats, check_string)
